@@ -117,6 +117,10 @@ func pureBody(fn *ssa.Function, seen map[*ssa.Function]bool) bool {
 						return false
 					}
 				}
+			case *ssa.Lookup:
+				if _, isMap := x.X.Type().Underlying().(*types.Map); isMap {
+					return false
+				}
 			case *ssa.Range:
 				if _, isMap := x.X.Type().Underlying().(*types.Map); isMap {
 					return false
